@@ -1,5 +1,6 @@
 import PGT.Proofs.FromFlat
 import PGT.Proofs.RoundTrip
+import PGT.Proofs.RoundTripOneof
 import PGT.Props.C19
 import PGT.Props.C20
 import PGT.Props.C03
@@ -145,6 +146,135 @@ theorem C04_example_runs :
     (match copyTo { info := { name := "M" }, fields := rtFields } rtObj (.obj false false none (some rtTys)) with
      | .ok r => (match copyFrom [] { info := { name := "M" }, fields := rtFields } r.tf (.struct []) with
         | .ok b => c04Check { info := { name := "M" }, fields := rtFields } rtObj b.obj && b.diags.isEmpty && r.diags.isEmpty
+        | _ => false)
+     | _ => false) = true := by
+  decide
+
+-- ------------------------------------------------------------------------------------------------------
+-- the round trip with oneof groups
+
+/-- **C04 for the plain tree with oneof groups, every depth.** As `C04_roundtrip_plain`, and fields may be branches of oneof
+groups – scalar branches and message branches –, at every nesting depth (`RT2OKs`: the Go fields assigned by two blocks
+differ unless both are branches of the same group, and then their wrapper types differ; a holder that carries a branch's
+wrapper carries it under the branch's field name). The comparison of a branch is the documented normal form: "this branch
+is active with a non-zero payload", so an active branch with a zero payload reads back as unset. Proof: `C03_total` composed
+with `fromFields_reads2` (mutual induction, `RoundTripOneof.lean`): after the blocks of a message the holder of each group
+carries a branch that was read back, or every branch of the group was idle and the holder is what `resetOneOfs` left
+(`HolderSpec`); `branch_nfEq` turns that into the comparison, using that in the source at most one wrapper is held. -/
+theorem C04_roundtrip_oneof (ov : List (String × String)) (m : Msg) (obj : GoVal) (atys : List (String × TfTy))
+    (hto : ToOKs m.fields obj atys) (hrt : RT2OKs m.fields obj) :
+    ∃ r b, copyTo m obj (.obj false false none (some atys)) = .ok r ∧ r.diags = [] ∧
+      copyFrom ov m r.tf (.struct []) = .ok b ∧ b.diags = [] ∧ c04Check m obj b.obj = true := by
+  obtain ⟨r, as, hrun, hd, htf, hren⟩ := C03.C03_total m obj atys hto
+  obtain ⟨o, hfrom, _, hall, hspec, _⟩ := fromFields_reads2 ov m.fields obj (some as)
+    { obj := resetOneOfs m.info.oneOfNames (.struct []) } hren hrt (isStruct_resetOneOfs _ _ trivial)
+  refine ⟨r, { obj := o, diags := [], hooks := [] }, hrun, hd, ?_, rfl, ?_⟩
+  · rw [htf]
+    simp [copyFrom, hfrom]
+  · unfold c04Check
+    apply nfEqFields_of_forall
+    intro f hf
+    by_cases ho : f.info.oneOfName = ""
+    · rw [nfEqField_eq_valNfEq f obj o ho]; exact hall f hf ho
+    · exact branch_nfEq m.fields obj _ o hrt f hf ho (initNone_reset _ _ (.struct []) trivial (initNone_empty _))
+        (hspec _ ho (no_plain_named m.fields obj hrt f hf ho))
+
+-- non-vacuity: a plain string, and a group `Kind` with a string branch `A` and a message branch `B` (active)
+def ooA : FieldInfo :=
+  { name := "A", nameSnake := "a", kind := .primitive, protoType := "string", oneOfName := "Kind", oneOfType := "pkg.M_A",
+    tf := { valueType := tyS, elemValueType := tyS, valueCastToType := "string", valueCastFromType := "string", zeroValue := "\"\"" } }
+def ooB : FieldInfo :=
+  { name := "B", nameSnake := "b", kind := .object, isNullable := true, oneOfName := "Kind", oneOfType := "pkg.M_B",
+    tf := { valueType := tyO, elemValueType := tyO } }
+def ooFields : List Field :=
+  [{ info := rtStr }, { info := ooA }, { info := ooB, msg := some { name := "Inner" }, sub := [{ info := rtList }] }]
+def ooInner : List (String × GoVal) := [("L", .slice (some [.sc (.w32 7)]))]
+def ooObj : GoVal := .struct [("S", .sc (.str [104, 105])), ("Kind", .iface (some ("M_B", "B", .ptr (some (.struct ooInner)))))]
+def ooTys : List (String × TfTy) :=
+  [("s", .prim .string), ("a", .prim .string), ("b", .obj (some [("l", .list (some (.prim .int64)))]))]
+def ooMsg : Msg := { info := { name := "M", oneOfNames := ["Kind"] }, fields := ooFields }
+
+theorem ooA_rt : PrimRT ooA .string :=
+  primRT_of_row ooA .string (by decide) (by decide) (by decide) (by decide) (by decide)
+
+theorem ooS_ok : RT2OK { info := rtStr } ooObj := by
+  unfold RT2OK
+  refine ⟨rfl, by simp [EmptyOK, isEmptyMsg], by decide, Or.inl ⟨rfl, ?_⟩⟩
+  simp only [show rtStr.kind = .primitive from rfl]
+  right
+  exact ⟨.string, rtStr_rt, by decide, by
+    unfold PrimVal
+    simp only [show rtStr.isNullable = false from rfl, Bool.false_eq_true, if_false]
+    exact ⟨.str [104, 105], by simp [getVal, rtStr, ooObj, GoVal.field?, List.lookup], by simp [rtStr, FieldInfo.rep, repOfGoType, C19.HasRep]⟩⟩
+
+theorem ooA_ok : RT2OK { info := ooA } ooObj := by
+  unfold RT2OK
+  refine ⟨rfl, by simp [EmptyOK, isEmptyMsg], by decide, Or.inr ⟨by decide, ?_, ?_⟩⟩
+  · intro w fn p h hw
+    simp [ooObj, ooA, GoVal.field?, List.lookup] at h
+    obtain ⟨rfl, _, _⟩ := h
+    exact absurd hw (by decide)
+  · simp only [show ooA.kind = .primitive from rfl]
+    refine ⟨rfl, by decide, .string, ooA_rt, by decide, ?_⟩
+    unfold PrimVal
+    simp only [show ooA.isNullable = false from rfl, Bool.false_eq_true, if_false]
+    exact ⟨.str [], by simp [getVal, ooA, ooObj, GoVal.field?, List.lookup, oneOfShadow, lastSegment, zeroGoOf, FieldInfo.rep, repOfGoType, zeroOfRep], by simp [ooA, FieldInfo.rep, repOfGoType, C19.HasRep]⟩
+
+theorem ooL_ok : RT2OK { info := rtList } (.struct ooInner) := by
+  unfold RT2OK
+  refine ⟨rfl, by simp [EmptyOK, isEmptyMsg], by decide, Or.inl ⟨rfl, ?_⟩⟩
+  simp only [show rtList.kind = .primitiveList from rfl]
+  refine ⟨by decide, by decide, .int64, rtList_rt, ?_⟩
+  intro e he
+  have : e = .sc (.w32 7) := by
+    simpa [getVal, rtList, ooInner, GoVal.field?, List.lookup, sliceElems] using he
+  subst this
+  unfold PrimVal
+  simp only [show rtList.isNullable = false from rfl, Bool.false_eq_true, if_false]
+  exact ⟨.w32 7, rfl, by simp [rtList, FieldInfo.rep, repOfGoType, C19.HasRep]⟩
+
+theorem ooB_ok : RT2OK { info := ooB, msg := some { name := "Inner" }, sub := [{ info := rtList }] } ooObj := by
+  unfold RT2OK
+  refine ⟨rfl, by simp [EmptyOK, isEmptyMsg], by decide, Or.inr ⟨by decide, ?_, ?_⟩⟩
+  · intro w fn p h _
+    simp [ooObj, ooB, GoVal.field?, List.lookup] at h
+    exact h.2.1.symm
+  · simp only [show ooB.kind = .object from rfl]
+    refine ⟨rfl, by decide, ?_⟩
+    unfold MsgTyped
+    simp only [if_true]
+    right
+    refine ⟨ooInner, by simp [getVal, ooB, ooObj, GoVal.field?, List.lookup, oneOfShadow, lastSegment], ?_⟩
+    unfold RT2OKs
+    refine ⟨ooL_ok, by simp, ?_⟩
+    unfold RT2OKs
+    trivial
+
+theorem C04_oneof_example_hyp : RT2OKs ooFields ooObj := by
+  unfold ooFields
+  unfold RT2OKs
+  refine ⟨ooS_ok, ?_, ?_⟩
+  · intro g hg
+    simp only [List.mem_cons, List.mem_nil_iff, or_false] at hg
+    rcases hg with rfl | rfl <;> (intro h; exact absurd h (by decide))
+  · unfold RT2OKs
+    refine ⟨ooA_ok, ?_, ?_⟩
+    · intro g hg
+      simp only [List.mem_cons, List.mem_nil_iff, or_false] at hg
+      subst hg
+      intro _
+      exact ⟨by decide, rfl, by decide⟩
+    · unfold RT2OKs
+      refine ⟨ooB_ok, by simp, ?_⟩
+      unfold RT2OKs
+      trivial
+
+/-- the example runs: the active message branch survives, the inactive scalar branch stays unset -/
+theorem C04_oneof_example_runs :
+    (match copyTo ooMsg ooObj (.obj false false none (some ooTys)) with
+     | .ok r => (match copyFrom [] ooMsg r.tf (.struct []) with
+        | .ok b => c04Check ooMsg ooObj b.obj && b.diags.isEmpty && r.diags.isEmpty &&
+            (match b.obj.field? "Kind" with | some (.iface (some (w, _, _))) => w == "M_B" | _ => false)
         | _ => false)
      | _ => false) = true := by
   decide
